@@ -112,12 +112,21 @@ func c16Config(dir string, secure bool) *conf.Config {
 
 // c16Boot builds a DatahubInstance on dir (re-using what is on disk there).
 func c16Boot(ctx *Ctx, dir string, secure bool) (app *c16App, err error) {
+	return c16BootWith(ctx, dir, secure, nil)
+}
+
+// c16BootWith: like c16Boot, with a last word on the configuration (e.g. an external
+// token issuer: Auth.WellKnown / Audience / Issuer).
+func c16BootWith(ctx *Ctx, dir string, secure bool, tweak func(*conf.Config)) (app *c16App, err error) {
 	defer func() {
 		if p := recover(); p != nil {
 			err = fmt.Errorf("panic while booting the hub: %v", p)
 		}
 	}()
 	cfg := c16Config(dir, secure)
+	if tweak != nil {
+		tweak(cfg)
+	}
 	if err := os.MkdirAll(cfg.StoreLocation, 0o755); err != nil {
 		return nil, err
 	}
